@@ -44,7 +44,7 @@ BQ_ONE = [
   bsc(1, 1, 0, (PUSH, N), (BPOP, N)),        # push sleeps on the full queue until the pop notifies slots_avail
   bsc(1, 1, 0, (TRYPUSH, N), (POP, N)),      # try_push may fail only if the queue was full at some instant
   bsc(1, 0, 0, (TRYPUSH, N), (BPOP, N)),
-  bsc(2, 1, 0, (PUSH, N), (TRYPUSH, N)),     # two producers, one free slot
+  bsc(2, 1, 0, (TRYPUSH, N), (TRYPUSH, N)),  # two producers, one free slot: exactly one succeeds (every scenario must let all blocking calls complete)
 ]
 BQ_TWO = [
   bsc(1, 0, 0, (PUSH, PUSH), (BPOP, BPOP)),  # capacity 1 ping-pong: every operation may sleep
@@ -56,12 +56,13 @@ DESC = ('2-3 threads x <=2 operations (push / try_pop) after a sequential pre-st
 IMMB = [r'S_class_tbb__detail__d2__concurrent_bounded_queue\*\)v_\d+\)\)\.f[34]$']   # my_queue_representation, my_monitors
 UNITS['bq1_2'] = dict(wrapper='w_cq.cpp', mode='lcs', unroll=1, cxxflags=['-DELEM=1', '-DBOUNDED=1'], lvalpath=True, immutable=IMMB, threads=thr('vp_thr_q', 2))
 UNITS['bq1_3'] = dict(wrapper='w_cq.cpp', mode='lcs', unroll=1, cxxflags=['-DELEM=1', '-DBOUNDED=1'], lvalpath=True, immutable=IMMB, threads=thr('vp_thr_q', 3))
+UNITS['cqx1_2'] = dict(wrapper='w_cq.cpp', mode='lcs', unroll=1, cxxflags=['-DELEM=1', '-DFAULTS=1'], exceptions=True, lvalpath=True, immutable=IMM, threads=thr('vp_thr_q', 2))
 HARNESSES = [
   dict(name='cq_big_2t', unit='cq1_2', harness='h_cq.c', defines={'NT': 2, 'ITEMS_PER_PAGE': 1},
-       scenarios_quick=R(3, ONE_OP) + R(2, TWO_OP[:2]), scenarios_thorough=R(4, ONE_OP) + R(3, TWO_OP),
+       scenarios_quick=R(3, ONE_OP[:3]) + R(2, ONE_OP[3:]) + R(2, TWO_OP[:1]), scenarios_thorough=R(4, ONE_OP[:3]) + R(3, ONE_OP[3:]) + R(3, TWO_OP),
        cbmc=CB, timeout=1500, mem_gb=8, thorough_override={'timeout': 3600}, native_cflags=NCF,
        desc='concurrent_queue<136-byte struct> (1 item/page: page allocated by every push, freed by every pop): ' + DESC,
-       bounds={'threads': 2, 'ops_per_thread': '<=2', 'free_rounds': 'ROUNDS of the scenario (quick: 3 for 1 op/thread, 2 for 2 ops/thread; thorough 4 / 3)', 'forced_rounds': 2, 'spin_unroll': 1, 'pre_state': 'PRE_PUSH pushes then PRE_POP pops, sequential'}),
+       bounds={'threads': 2, 'ops_per_thread': '<=2', 'free_rounds': 'ROUNDS of the scenario (quick: 3 for 1 op/thread from a short pre-state, 2 otherwise; thorough 4 / 3)', 'forced_rounds': 2, 'spin_unroll': 1, 'pre_state': 'PRE_PUSH pushes then PRE_POP pops, sequential'}),
   dict(name='cq_int_2t', unit='cq0_2', harness='h_cq.c', defines={'NT': 2, 'ITEMS_PER_PAGE': 32},
        scenarios_quick=R(2, [sc(8, 0, (PUSH, N), (POP, N))]), scenarios_thorough=R(3, [sc(0, 0, (PUSH, N), (POP, N)), sc(8, 0, (PUSH, N), (POP, N)), sc(1, 0, (POP, N), (POP, N))]),
        cbmc=CB, timeout=1500, mem_gb=8, thorough_override={'timeout': 3600}, native_cflags=NCF,
@@ -94,3 +95,37 @@ if _os.environ.get('C09_SC'):
 OUTSIDE = []
 STUBS = []
 ASSUMPTIONS = []
+MANIFEST = dict(
+  level_text='Bounded model checking of the real concurrent_queue / concurrent_bounded_queue code (push, try_pop, blocking pop, try_push; micro_queue lanes, '
+             'page allocation/linking/freeing, pop finalizer, ticket counters): for 2-3 threads with <=2 operations each, started from pre-states built by real '
+             'sequential pushes/pops (tickets revisit lanes, recycled lanes, full/empty bounded queues), every interleaving at single-IR-memory-operation '
+             'granularity within R scheduling rounds per thread is decided by the SAT solver against a COMPLETE linearizability check of the recorded '
+             'invocation/response history w.r.t. a sequential (bounded) FIFO queue, plus: no item lost/duplicated/invented (final drain through the real try_pop), '
+             'lane/ticket invariants and page accounting at quiescence, no use-after-free of pages (cbmc pointer checks), no lost hand-off or lost wake-up '
+             '(two-round blocked-state oracle), capacity never exceeded, try_push/try_pop failures justified.',
+  level_note='Element types: 136-byte (1 item/page), 72-byte (2/page), 4-byte (32/page). Bounds per harness in evidence (threads, ops, rounds, pre-state). '
+             'concurrent_bounded_queue: the header code is real, the three r1:: monitor entry points are contract stubs (atomic test-and-sleep, notify selects '
+             'contexts <= ticket); the real concurrent_monitor is checked in C02. Exceptions compiled out: constructor/allocation faults and abort() are outside. '
+             'Sequential consistency. Trusted: clang-14 IR, tools/ir2c.py (--lvalpath/--immutable emission), cbmc + kissat.',
+)
+OUTSIDE = [
+  'more than 3 threads, more than 2 operations per thread (4 concurrent operations in the quick tier)',
+  'fault sequences: element constructor / page allocation that throws (needs the exception-enabled build), hence the invalid-entry paths (n_invalid_entries, bad_last_alloc)',
+  'concurrent_bounded_queue::abort / user_abort, capacity changes while threads run, negative-size states with more than one blocked pop',
+  'the real concurrent_monitor under the bounded queue (stubbed at the r1:: boundary; covered separately by C02) and the real cache_aligned_allocator',
+  'two operations meeting in the same lane other than push(k+8)/pop(k): e.g. pop(k)/pop(k+8) needs >8 pops (mutation M2 below is invisible inside the bound)',
+  'emplace / move push, iterators, copy/move/assign/clear/swap (not concurrent operations)',
+  'weak memory: sequential consistency only',
+]
+STUBS = [
+  'r1::cache_aligned_allocate/deallocate: malloc/free of the requested size (queue representation handed out as a static typed object, pages as typed heap objects)',
+  'r1::allocate_bounded_queue_rep: static representation object; the monitor memory behind it is never touched by the header code',
+  'r1::wait_bounded_queue_monitor(tag, target, pred): returns iff pred() is false, else the caller sleeps under context `target`; test-and-sleep atomic; pred re-evaluated after each selecting notify',
+  'r1::notify_bounded_queue_monitor(tag, ticket): wakes every sleeper of that monitor whose context <= ticket (predicate_leq)',
+  'r1::throw_exception: must not be reached (no faults injected)',
+  'sched_yield / pause: scheduling hints',
+]
+ASSUMPTIONS = [
+  'concurrent_queue::my_queue_representation / my_monitors do not change while the threads run (asserted at the end; loads of them are not scheduling points)',
+  'the monitor used by concurrent_bounded_queue has no lost wake-up between predicate test and sleep (its contract; checked on the real code by C02)',
+]
